@@ -35,6 +35,7 @@ inductive Draw where
   | choice (c : List Nat)               -- `discrete_recombination`: per coordinate, which parent it comes from
   | mutant (v : List F)                 -- `DifferentialEvolutionOptimizer.mutation()`: the float mutant vector
   | parents (idx : List Nat)            -- `GeneticAlgorithmOptimizer._crossover`: indices of the selected parents
+  | inits (l : List Pos)                -- the start-up list of an optimizer that is built DURING the run (Powell's inner climber)
 deriving Repr, DecidableEq, Inhabited
 
 abbrev Tape := List Draw
